@@ -56,7 +56,7 @@ class E1Check(runner.Check):
     types_quick = values.TYPES_QUICK
     types_thorough = values.TYPES_THOROUGH
     bounds_quick = dict(N=3, M=2, K=6, enc_k=1, state_cap=400, parts=1)
-    bounds_thorough = dict(N=4, M=3, K=8, enc_k=2, state_cap=80, parts=16)
+    bounds_thorough = dict(N=4, M=3, K=8, enc_k=1, state_cap=160, parts=16)
     exotic = True
     l3_table = None           # name of the tier-L3 operation table in mc/l3.py (the Python layer's half of the property)
     labeler = staticmethod(values.default_label)
